@@ -78,21 +78,36 @@ fn scan_loop<F: FnMut(&[u8])>(stream: &mut GhostStream, len: FileLen, buf: &mut 
 
 
 def build():
+    import re
+    from vf.verus_run import LostAnchor, Region
     ub = UnitBuild(NAME)
     h = Source("fclones/src/hasher.rs")
     fn = h.item("fn scan<F: FnMut(&[u8])>(")
+    # structural anchors: the slice runs from the declaration of the byte counter (`let mut <c>: u64 = 0;`) to the final
+    # `Ok(<c>)`; the names of the counter, of the slice of the buffer and of its length are read from the code
+    m0 = re.search(r"^[ \t]*let mut (\w+): u64 = 0;", fn.text, re.M)
+    if not m0:
+        raise LostAnchor("no `let mut <counter>: u64 = 0;` in hasher::scan")
+    cnt = m0.group(1)
+    m1 = re.search(r"^[ \t]*Ok\(%s\)[ \t]*$" % cnt, fn.text, re.M)
+    if not m1:
+        raise LostAnchor("no final `Ok(%s)` in hasher::scan" % cnt)
     ub.spec(PRELUDE)
-    p = ub.piece(Piece(h.stmts(fn, "let mut read: u64 = 0;", "Ok(read)")))
-    p.after("        while read < len", "\n            invariant_except_break !stream.eof, !stream.failed,\n"
-            "            invariant read == stream.delivered.len(), read <= len, len == verif_len0.0,\n"
-            "                forall|b: &[u8]| #[trigger] consumer.requires((b,)),\n"
-            "            ensures read == stream.delivered.len(), read <= len, len == verif_len0.0, (read == len || stream.eof),\n"
-            "                !stream.failed, // @ob C15.scan.read_error_is_propagated_never_a_partial_result\n"
-            "       ")
+    p = ub.piece(Piece(Region(h, fn.start + m0.start(), fn.start + m1.end())))
+    loop_head = "while %s < len" % cnt
+    if p.has(loop_head):
+        p.after(loop_head, "\n            invariant_except_break !stream.eof, !stream.failed,\n"
+                "            invariant %s == stream.delivered.len(), %s <= len, len == verif_len0.0,\n"
+                "                forall|b: &[u8]| #[trigger] consumer.requires((b,)),\n"
+                "            ensures %s == stream.delivered.len(), %s <= len, len == verif_len0.0, (%s == len || stream.eof),\n"
+                "                !stream.failed, // @ob C15.scan.read_error_is_propagated_never_a_partial_result\n"
+                "       " % (cnt, cnt, cnt, cnt, cnt))
+        p.after(loop_head + " {", "\n            broadcast use min_u64;")
     p.before("let len = len.into();", "        let ghost verif_len0 = len;")
-    p.before("let remaining = len - read;", "            broadcast use min_u64;")
-    p.after("let buf = &mut buf[..to_read];",
-            "\n            assume(buf@.len() == to_read); // ASSUMED std fact: the mutable slice `&mut v[..n]` has length n")
+    m2 = re.search(r"let (\w+) = &mut (\w+)\[\.\.(\w+)\];", p.base)
+    if m2:
+        p.after(m2.group(0), "\n            assume(%s@.len() == %s); // ASSUMED std fact: the mutable slice `&mut v[..n]` has length n"
+                % (m2.group(1), m2.group(3)))
     ub.spec("\n}\n\n} // verus!\nfn main() {}\n")
     ub.functions = ["hasher::scan [slice: the read loop]"]
     ub.assumptions = [
@@ -102,5 +117,6 @@ def build():
         "From<FileLen> for u64 returns the wrapped value; std::cmp::min on u64",
         "the thread-local buffer set-up before the slice (BUF.with, resize) and what the consumer closure does with the bytes are NOT covered; "
         "that the consumer is called with exactly buf[..actual_read] is not expressed (opaque FnMut)",
+        "termination of the loop is not claimed",
     ]
     return ub
